@@ -200,6 +200,14 @@ def failure_scenarios():
                  oracle={"f": [{"error": "Boom"}, {"ok": 1}]}))
     S.append(scn("par-timeout", SM("P", P=Par([SM("A", A=T("f", TimeoutSeconds=2, End=True)), SM("B", B=T("g", End=True))], End=True)),
                  oracle={"f": [{"silent": True}]}))
+    # an execution that runs into the history quota (scaled down to 40 events for this world): it is failed, and the
+    # record, the notification and the LAST history event say so
+    S.append(scn("hist-quota-loop", SM("A", A=P(Next="B"), B=P(Next="A")), hist_quota=40))
+    # a Map-level Retry that fires: the iterations are re-run from their first state (entered AND exited again)
+    S.append(scn("map1-2step-retry", SM("M", M=Mp(chain(("F1", P()), ("W1", T("f"))), Retry=[{"ErrorEquals": ["States.ALL"], "IntervalSeconds": 1, "MaxAttempts": 2}], End=True)),
+                 inputs=([1],), oracle={"f": [{"error": "Boom"}, {"ok": 1}]}))
+    S.append(scn("map-2step-retry", SM("M", M=Mp(chain(("F1", P()), ("W1", T("f"))), Retry=[{"ErrorEquals": ["States.ALL"], "IntervalSeconds": 1, "MaxAttempts": 2}], Next="Z"), Z=P(End=True)),
+                 inputs=([1, 2],), oracle={"f": [{"error": "Boom"}, {"ok": 1}, {"ok": 2}, {"ok": 3}]}))
     # a fan-out with a Catch in which BOTH branches fail: the second failure arrives after the first was caught
     S.append(scn("par-catch-both-fail", SM("P", P=Par([SM("A", A=T("f", End=True)), SM("B", B=T("g", End=True))],
                                                        Catch=[{"ErrorEquals": ["States.ALL"], "Next": "R", "ResultPath": "$.err"}], Next="Z"),
@@ -223,6 +231,7 @@ def failure_scenarios():
                                                              SM("F", F=P(OutputPath="$.nope", End=True))], End=True)), inputs=({"items": []},)))
     # the machine-level TimeoutSeconds expiring inside a Wait, a Task, and a branch of a Parallel
     S.append(scn("exec-timeout-wait", dict(SM("A", A=P(Next="W"), W=Wt(5, Next="Z"), Z=P(End=True)), TimeoutSeconds=2)))
+    S.append(scn("exec-timeout-wait-fits", dict(SM("A", A=P(Next="W"), W=Wt(5, Next="Z"), Z=P(End=True)), TimeoutSeconds=8)))
     S.append(scn("exec-timeout-task", dict(SM("A", A=T("f", Catch=[{"ErrorEquals": ["States.ALL"], "Next": "Z"}], Next="Z"), Z=P(End=True)), TimeoutSeconds=2),
                  oracle={"f": [{"silent": True}]}))
     S.append(scn("exec-timeout-par", dict(SM("P", P=Par([SM("A", A=Wt(5, End=True)), SM("B", B=T("g", End=True))], End=True)), TimeoutSeconds=2)))
